@@ -16,7 +16,7 @@ import (
 )
 
 func TestMain(m *testing.M) {
-	pgLeg := "PostgreSQL wire leg: RUN (in-process server, pgsql listener on a loopback port, lib/pq, simple-query protocol; INTEGER / VARCHAR / BOOLEAN columns, no UNIQUE indexes, no DDL inside transactions)"
+	pgLeg := "PostgreSQL wire leg: RUN (in-process server, pgsql listener on a loopback port, lib/pq; simple-query protocol, and Parse/Bind/Execute with text parameters for a third of the INSERT / UPSERT statements; INTEGER / VARCHAR / BOOLEAN columns without NUL bytes, no UNIQUE indexes, no read-only sessions, no DDL inside transactions)"
 	if err := loopbackError(); err != nil {
 		pgNotRun = "loopback sockets unavailable: " + err.Error()
 		pgLeg = "PostgreSQL wire leg: NOT RUN (" + pgNotRun + "); only the engine-API leg supports the claim"
@@ -28,7 +28,7 @@ func TestMain(m *testing.M) {
 			"every statement is executed with the harness as the barrier and compared with a reference interpreter (tables in memory, snapshot per " +
 			"transaction, write log, savepoint stack, counters). Non-trivial: a transaction with writes ended without effect (rollback, cancel, failed " +
 			"statement, failed commit) or rolled back to a savepoint after a write, or a query failed in the middle of a writing transaction, or a session " +
-			"read while another one had uncommitted writes or after another one committed; distinct by hash of the executed trace.",
+			"read while another one had uncommitted writes or after another one committed (TestParallelTransfers: some transfer was rolled back, cancelled, failed or lost its COMMIT to a conflict); distinct by hash of the executed trace.",
 		Assumptions: []string{
 			"inside a transaction rows are read through the primary index only (WHERE clauses use key columns and columns without a secondary index): reads through a secondary index inside the writing transaction are C11's known findings K11/K12",
 			"in tables with secondary indexes a transaction does not change the indexed columns of existing rows (two rows of one transaction meeting in one index value fail with 'cannot change a non-transient key to transient'), does not re-create a row it deleted, and uses ON CONFLICT DO UPDATE only without UNIQUE indexes (the engine rejects or mishandles these, C11/C12 territory)",
@@ -37,7 +37,8 @@ func TestMain(m *testing.M) {
 			"COMMIT may fail with a read conflict whenever another session committed since BEGIN (either outcome accepted, then checked for all-or-nothing); without such a commit it must succeed",
 			"AUTO_INCREMENT counters are not rolled back by ROLLBACK TO SAVEPOINT (sequence semantics) in the reference",
 			pgLeg,
-			"not implemented: the extended query protocol (Parse/Bind/Execute) of the PostgreSQL front-end; sessions running truly in parallel (schedules are interleavings at statement granularity, executed by one goroutine)",
+			"TestTxPrograms / TestPgWirePrograms execute interleavings at statement granularity from one goroutine; sessions that really run in parallel are covered by TestParallelTransfers only (transfers between accounts: the total is the same for every reader, final balances = initial + committed transfers)",
+			"not implemented: queries with bound parameters over the PostgreSQL front-end; DROP TABLE / DROP INDEX / column renames inside transactions",
 		},
 		Probes: []vk.Probe{
 			{ID: kfSavepoint, Present: probeSavepoint},
